@@ -88,6 +88,7 @@ class Operation:
         "_expansion_level",
         "_expression",
         "_dimensions",
+        "_expected_base_state_types",
     )
 
     def __init__(
@@ -137,6 +138,11 @@ class Operation:
         self.kwargs = kwargs
 
         self._operation_type.update(**kwargs)
+        # The operand types belong to this operation: the operation type is an enum member
+        # shared by every operation of that type, so a copy is kept here
+        self._expected_base_state_types: List[Any] = list(
+            getattr(operation_type, "expected_base_state_types", [])
+        )
 
         if operation_type is FockOperationType.Custom:
             assert isinstance(kwargs["operator"], jnp.ndarray)
@@ -238,6 +244,19 @@ class Operation:
             self._dimensions = self._operation_type.compute_dimensions(
                 num_quanta, state, **self.kwargs
             )
+
+    @property
+    def expected_base_state_types(self) -> List[Any]:
+        """
+        Returns the types of the states this operation expects, in order
+        (only meaningful for composite operations)
+
+        Returns
+        -------
+        List[Any]
+            The list of expected state types
+        """
+        return self._expected_base_state_types
 
     @property
     def required_expansion_level(self) -> ExpansionLevel:
